@@ -158,6 +158,9 @@ def run_case(case):
         clear_after_set = False
         cli_without_private = False
         for i, req in enumerate(case["edits"]):
+            if req["route"] == "lib" and req.get("resend") is not None and sent:
+                # the dict object of an earlier library call goes out again: what it asks for is what that request asked for
+                req = dict(sent[req["resend"] % len(sent)][0], resend=req["resend"])
             for f, op in req["fields"].items():
                 if op["op"] == "clear" and f in set_fields:
                     clear_after_set = True
